@@ -56,11 +56,12 @@ type point struct {
 }
 
 type Result struct {
-	V       []prog.V `json:"v,omitempty"`
-	Points  []point  `json:"points"`
-	Choices []int    `json:"choices"`
-	Obs     string   `json:"obs"`
-	Harness string   `json:"harness,omitempty"`
+	V        []prog.V `json:"v,omitempty"`
+	Points   []point  `json:"points"`
+	Choices  []int    `json:"choices"`
+	Obs      string   `json:"obs"`
+	Diverged string   `json:"diverged,omitempty"`
+	Harness  string   `json:"harness,omitempty"`
 }
 
 const (
@@ -71,11 +72,11 @@ const (
 var errInjected = errors.New("injected lease service error")
 
 type run struct {
-	c       Case
-	res     *Result
-	k       int
-	sticky  map[string]bool // node -> renew errors for the rest of the run
-	log     []string
+	c      Case
+	res    *Result
+	k      int
+	sticky map[string]bool // node -> renew errors for the rest of the run
+	log    []string
 }
 
 func (r *run) choose(kind string, n int) int {
@@ -83,7 +84,13 @@ func (r *run) choose(kind string, n int) int {
 	if r.k < len(r.c.Prefix) {
 		c = r.c.Prefix[r.k]
 		if c >= n {
-			r.res.Harness = fmt.Sprintf("replay divergence at decision %d (%s): choice %d of %d", r.k, kind, c, n)
+			// The node under test and its peer are real concurrent goroutines: which of them reaches the lease
+			// service first at one fake instant is the Go scheduler's choice, so a script recorded in one run can
+			// meet another call order in the next. The run continues truthfully from here (it is still a real
+			// execution and is judged); the coordinator re-runs the script and accounts for it if it stays unrealised.
+			if r.res.Diverged == "" {
+				r.res.Diverged = fmt.Sprintf("decision %d is %s with %d answers, the script asks for answer %d", r.k, kind, n, c)
+			}
 			c = 0
 		}
 	}
@@ -166,9 +173,13 @@ func run1(t *testing.T, c Case) (res Result) {
 					return lab.Deviation{StaleInfo: &litefs.PrimaryInfo{Hostname: "Z", AdvertiseURL: "http://Z"}}, true
 				}
 			case "ClusterID":
-				if r.choose("ClusterID", 2) == 1 {
+				switch r.choose("ClusterID", 3) {
+				case 1:
 					r.log = append(r.log, "ClusterID->error")
 					return lab.Deviation{Err: errInjected}, true
+				case 2:
+					r.log = append(r.log, "ClusterID->empty")
+					return lab.Deviation{EmptyClusterID: true}, true
 				}
 			case "SetClusterID":
 				if r.choose("SetClusterID", 2) == 1 {
@@ -504,6 +515,8 @@ func TestCheck(t *testing.T) {
 	pool.CaseTimeout = 3 * time.Minute
 	defer pool.Close()
 	evals := 0
+	unrealised := 0
+	var unrealisedSamples []any
 	distinct := map[string]bool{}
 	var samples []any
 	maxPoints := 0
@@ -513,52 +526,68 @@ func TestCheck(t *testing.T) {
 		cfgEvals := 0
 		outcomes := map[string]int{}
 		for level := 0; level <= bound && len(frontier) > 0; level++ {
-			anyCases := make([]any, len(frontier))
-			for i := range frontier {
-				anyCases[i] = frontier[i]
-			}
 			var next []Case
 			cur := frontier
-			pool.Run(anyCases, func(i int, out json.RawMessage, crash *vlib.Crash, flaky bool) {
-				evals++
-				cfgEvals++
-				if flaky {
-					runv.HarnessError("case crashed once and passed on re-run: %+v", cur[i])
+			for attempt := 0; attempt < 4 && len(cur) > 0; attempt++ {
+				anyCases := make([]any, len(cur))
+				for i := range cur {
+					anyCases[i] = cur[i]
 				}
-				if crash != nil {
-					runv.Violation("crash", fmt.Sprintf("worker died twice on %+v (timeout=%v)\n%s", cur[i], crash.Timeout, tail(crash.Output, 2500)), map[string]any{"case": cur[i]})
-					return
-				}
-				var r Result
-				if err := json.Unmarshal(out, &r); err != nil {
-					runv.HarnessError("bad result: %v", err)
-					return
-				}
-				if r.Harness != "" {
-					runv.HarnessError("%s (case %+v)", r.Harness, cur[i])
-					return
-				}
-				for _, v := range r.V {
-					runv.Violation(v.Key, v.What, map[string]any{"case": cur[i]})
-				}
-				outcomes[r.Obs]++
-				distinct[fmt.Sprintf("%v/%s/%s/%s:%s", cfg.Candidate, cfg.StoredID, cfg.ServiceID, cfg.Topology, r.Obs)] = true
-				if len(r.Points) > maxPoints {
-					maxPoints = len(r.Points)
-				}
-				if len(samples) < 6 && len(cur[i].Prefix) > 0 && evals%301 == 0 {
-					samples = append(samples, map[string]any{"case": cur[i], "observation": r.Obs, "decision_points": len(r.Points)})
-				}
-				if level == bound {
-					return
-				}
-				for p := len(cur[i].Prefix); p < len(r.Points); p++ {
-					for alt := 1; alt < r.Points[p].Options; alt++ {
-						prefix := append(append([]int{}, r.Choices[:p]...), alt)
-						next = append(next, Case{Cfg: cfg, Prefix: prefix})
+				var again []Case
+				last := attempt == 3
+				pool.Run(anyCases, func(i int, out json.RawMessage, crash *vlib.Crash, flaky bool) {
+					evals++
+					cfgEvals++
+					if flaky {
+						runv.HarnessError("case crashed once and passed on re-run: %+v", cur[i])
 					}
-				}
-			})
+					if crash != nil {
+						runv.Violation("crash", fmt.Sprintf("worker died twice on %+v (timeout=%v)\n%s", cur[i], crash.Timeout, tail(crash.Output, 2500)), map[string]any{"case": cur[i]})
+						return
+					}
+					var r Result
+					if err := json.Unmarshal(out, &r); err != nil {
+						runv.HarnessError("bad result: %v", err)
+						return
+					}
+					if r.Harness != "" {
+						runv.HarnessError("%s (case %+v)", r.Harness, cur[i])
+						return
+					}
+					for _, v := range r.V {
+						runv.Violation(v.Key, v.What, map[string]any{"case": cur[i]})
+					}
+					if r.Diverged != "" {
+						if !last {
+							again = append(again, cur[i])
+						} else {
+							unrealised++
+							if len(unrealisedSamples) < 5 {
+								unrealisedSamples = append(unrealisedSamples, map[string]any{"case": cur[i], "why": r.Diverged})
+							}
+						}
+						return
+					}
+					outcomes[r.Obs]++
+					distinct[fmt.Sprintf("%v/%s/%s/%s:%s", cfg.Candidate, cfg.StoredID, cfg.ServiceID, cfg.Topology, r.Obs)] = true
+					if len(r.Points) > maxPoints {
+						maxPoints = len(r.Points)
+					}
+					if len(samples) < 6 && len(cur[i].Prefix) > 0 && evals%301 == 0 {
+						samples = append(samples, map[string]any{"case": cur[i], "observation": r.Obs, "decision_points": len(r.Points)})
+					}
+					if level == bound {
+						return
+					}
+					for p := len(cur[i].Prefix); p < len(r.Points); p++ {
+						for alt := 1; alt < r.Points[p].Options; alt++ {
+							prefix := append(append([]int{}, r.Choices[:p]...), alt)
+							next = append(next, Case{Cfg: cfg, Prefix: prefix})
+						}
+					}
+				})
+				cur = again
+			}
 			frontier = next
 			if runv.NViolations() > 0 {
 				break
@@ -573,15 +602,18 @@ func TestCheck(t *testing.T) {
 		samples = append(samples, perCfg[0])
 	}
 	cov := map[string]any{
-		"evaluations":         evals,
-		"distinct_nontrivial": len(distinct),
-		"deviation_bound":     bound,
-		"configurations":      len(cfgs),
-		"max_decision_points": maxPoints,
-		"per_configuration":   perCfg,
-		"exhaustive":          true,
-		"samples":             samples,
-		"rule":                "every lease-service answer script with at most deviation_bound deviations from the truthful answer (answers per call kind: Acquire 3, AcquireExisting 2, Renew 4 incl. 'errors from now on', PrimaryInfo 4 incl. stale info, ClusterID 2, SetClusterID 2; environment events every 5 fake seconds: none / Demote / Handoff(unknown) / Handoff(M)) over a 40 s horizon (TTL 10 s), per configuration; distinct_nontrivial = distinct (configuration, role timeline) classes",
+		"evaluations":                  evals,
+		"distinct_nontrivial":          len(distinct),
+		"deviation_bound":              bound,
+		"configurations":               len(cfgs),
+		"max_decision_points":          maxPoints,
+		"per_configuration":            perCfg,
+		"exhaustive":                   unrealised == 0,
+		"scripts_not_realised":         unrealised,
+		"scripts_not_realised_samples": unrealisedSamples,
+		"scripts_not_realised_note":    "a script whose recorded call order did not recur in four runs (two nodes reaching the lease service at the same fake instant in another order); each of those runs was still executed and judged, but the script's own subtree is not covered",
+		"samples":                      samples,
+		"rule":                         "every lease-service answer script with at most deviation_bound deviations from the truthful answer (answers per call kind: Acquire 3, AcquireExisting 2, Renew 4 incl. 'errors from now on', PrimaryInfo 4 incl. stale info, ClusterID 3 incl. 'none stored', SetClusterID 2; environment events every 5 fake seconds: none / Demote / Handoff(unknown) / Handoff(M)) over a 40 s horizon (TTL 10 s), per configuration; distinct_nontrivial = distinct (configuration, role timeline) classes",
 	}
 	runv.Finish(cov, []string{
 		"The lease service is the in-memory SimLeaser (service-side truth: holder, expiry on the fake clock, cluster ID); the Consul leaser against a fake Consul endpoint is not built.",
